@@ -17,8 +17,11 @@ package cachedb
 //@   at call (*database/sql.DB).Query#1 assert arg1 == ret("fmt.Sprintf#1") && len(arg2) == 1 && typeis(arg2[0], string) && unbox(arg2[0], string) == key
 //@   at call encoding/json.Unmarshal#1 assert arg1 == ptr && bytesof(s, arg0)
 //@   ensures imp(result, called("(*database/sql.DB).Query") && called("(*database/sql.Rows).Next") && called("(*database/sql.Rows).Scan") && called("encoding/json.Unmarshal") && len(s) != 0)
+//@   ensures imp(result, ret("(*database/sql.Rows).Next#1") && ret("(*database/sql.Rows).Scan#1") == nil && ret("encoding/json.Unmarshal#1") == nil)
+//@   at call (*database/sql.Rows).Scan#1 assert ret("(*database/sql.Rows).Next#1")
 //@ func Write [C30]
 //@   check none
 //@   ensures sqlWrite == "INSERT OR REPLACE INTO '%s' (key, value, ttl) VALUES (?, ?, ?);"
 //@   at call fmt.Sprintf@"sqlWrite" assert arg0 == sqlWrite && len(arg1) == 1 && typeis(arg1[0], string) && unbox(arg1[0], string) == namespace
 //@   at call encoding/json.Marshal#1 assert arg0 == value
+//@   at call (*database/sql.DB).Exec#1 assert arg1 == ret("fmt.Sprintf#2") && len(arg2) == 3 && typeis(arg2[0], string) && unbox(arg2[0], string) == key && typeis(arg2[1], string) && bytesof(unbox(arg2[1], string), ret("encoding/json.Marshal#1", 0)) && typeis(arg2[2], int64) && unbox(arg2[2], int64) == ret("(time.Time).Unix#1") && ret("encoding/json.Marshal#1", 1) == nil
